@@ -161,6 +161,14 @@ def _builtin(ex, st, c, callee, args, fn):
         if isinstance(a, Struct) and isinstance(b, Struct) and len(a.f) == len(b.f) and all(isinstance(x, z3.ExprRef) for x in a.f + b.f):
             e = z3.And([x == y for x, y in zip(a.f, b.f)])
             return e if m.group(3) == 'eq' else z3.Not(e)
+    m = re.match(r'^<((?:std::option::|core::option::)?Option<.+>|(?:std::time::)?(?:SystemTime|Instant|Duration)) as PartialEq>::(eq|ne)$', c)
+    if m:
+        # std types whose PartialEq is derived: structural equality of the values (Option<T> for such T, SystemTime, Instant, Duration)
+        inner = re.sub(r'^.*?Option<(.+)>$', r'\1', m.group(1))
+        if re.fullmatch(r'(?:std::time::)?(?:SystemTime|Instant|Duration)|[iu](?:8|16|32|64|128|size)|bool', inner.strip()):
+            e = _struct_eq(_val(ex, st, args[0]), _val(ex, st, args[1]))
+            if e is not None:
+                return e if m.group(2) == 'eq' else z3.Not(e)
     if re.match(r'^<(Ordering|std::cmp::Ordering) as PartialEq>::(eq|ne)$', c):
         a, b = _val(ex, st, args[0]), _val(ex, st, args[1])
         e = a.disc() == b.disc()
@@ -408,10 +416,46 @@ def _builtin(ex, st, c, callee, args, fn):
     return NotImplemented
 
 
+def _struct_eq(a, b):
+    """structural equality of two symbolic values as a z3 Bool; None when a component is not comparable"""
+    if isinstance(a, z3.ExprRef) and isinstance(b, z3.ExprRef):
+        return a == b
+    if isinstance(a, int) and isinstance(b, (int, z3.ExprRef)) or isinstance(b, int) and isinstance(a, z3.ExprRef):
+        return (z3.IntVal(a) if isinstance(a, int) else a) == (z3.IntVal(b) if isinstance(b, int) else b)
+    if a is UNIT and b is UNIT:
+        return z3.BoolVal(True)
+    if isinstance(a, Struct) and isinstance(b, Struct) and len(a.f) == len(b.f):
+        parts = [_struct_eq(x, y) for x, y in zip(a.f, b.f)]
+        if any(p is None for p in parts):
+            return None
+        return z3.And(parts) if parts else z3.BoolVal(True)
+    if isinstance(a, Enum) and isinstance(b, Enum) and set(a.p) | set(b.p) <= {'Some', 'None'}:
+        # Option: None = 0, Some = 1; the payloads matter only when both are Some
+        da, db = a.disc(), b.disc()
+        if 'Some' in a.p and 'Some' in b.p:
+            e = _struct_eq(a.p['Some'], b.p['Some'])
+            if e is None:
+                return None
+            return z3.And(da == db, z3.Implies(da == 1, e))
+        for x in (a, b):
+            if 'Some' not in x.p and not z3.is_int_value(z3.simplify(x.disc())):
+                return None
+        return z3.And(da == db, da == 0)
+    return None
+
+
 def call_closure(ex, st, callee, closure, cargs):
     """invoke a closure whose body is in the dump; the closure type `{closure@file:l:c: l:c}` is read from the callee's
     generic arguments.  returns (state, value) or None"""
     locs = re.findall(r'\{closure@([^}]+)\}', callee)
+    if isinstance(closure, Opaque) and closure.tag.startswith('item:'):
+        # a plain function passed where a closure is expected
+        cands = ex.prog.resolve(closure.tag[5:], len(cargs))
+        if len(cands) == 1:
+            outs = ex.inline(cands[0], list(cargs), st)
+            if len(outs) == 1:
+                return outs[0]
+        return None
     if not locs:
         return None
     for loc in reversed(locs):
@@ -437,13 +481,20 @@ def _call_closure_on(ex, st, fn, v, variant, closure, callee, wrap):
     m = re.search(r'\{closure@([^}]+)\}', callee)
     if variant not in v.p and isinstance(v.d, int):
         return v          # the mapped variant is statically absent: the value passes through unchanged
-    if not m or variant not in v.p:
+    is_item = isinstance(closure, Opaque) and closure.tag.startswith('item:')
+    if (not m and not is_item) or variant not in v.p:
         return NotImplemented
-    loc = m.group(1)
-    cands = [f for lst in ex.prog.fns.values() for f in lst if '{closure#' in f.name and f.params and loc in f.ltypes.get(f.params[0], '')]
-    if len(cands) != 1:
-        return NotImplemented
-    outs = ex.inline(cands[0], [closure, v.p[variant].f[0]], st.fork())
+    if is_item:
+        cands = ex.prog.resolve(closure.tag[5:], 1)
+        if len(cands) != 1:
+            return NotImplemented
+        outs = ex.inline(cands[0], [v.p[variant].f[0]], st.fork())
+    else:
+        loc = m.group(1)
+        cands = [f for lst in ex.prog.fns.values() for f in lst if '{closure#' in f.name and f.params and loc in f.ltypes.get(f.params[0], '')]
+        if len(cands) != 1:
+            return NotImplemented
+        outs = ex.inline(cands[0], [closure, v.p[variant].f[0]], st.fork())
     if len(outs) != 1:
         return NotImplemented
     s2, mapped = outs[0]
